@@ -104,6 +104,8 @@ func TestTrace(t *testing.T) {
 		traceStore(t, o)
 	case "lookup":
 		traceLookup(t, o)
+	case "backup":
+		traceBackup(t, o)
 	default:
 		t.Fatalf("unknown family %q", o.family)
 	}
